@@ -51,7 +51,7 @@ let upload transport chunks close rd eof dec variant obs =
   bump ("up_dec_" ^ (match sc.sc_dec with DAnswer st -> if is_2xx st then "2xx" else "non2xx" | DDrop -> "drop" | DCancel -> "cancel"));
   bump (if sc.sc_eof then "up_after_eof" else if int_ rd = 0 then "up_before_reading" else if int_ rd < total then "up_midway" else "up_all_read_no_eof");
   bump (if sc.sc_close then "up_closes" else "up_never_closes");
-  bump ("up_close_" ^ show_result o.o_close);
+  bump ("up_close_" ^ (match o.o_close with Some (RHttp st) -> Printf.sprintf "http%dxx" (int_of_n st / 100) | r -> show_result r));
   if List.exists (fun (_, ok) -> not ok) o.o_writes then bump "up_some_write_failed";
   ignore variant;
   if sc.sc_chunks <> [] then note_nontrivial (show (L [A "up"; chunks; close; rd; eof; dec; transport]));
@@ -144,7 +144,7 @@ let () =
     match sx with
     | [L [A "up"; transport; chunks; close; rd; eof; dec; variant]; obs] ->
       upload transport chunks close rd eof dec variant obs
-    | [L [A "conc"; A "race"]; L [A "cobs"; _; _; A r]] ->
+    | [L [A "conc"; A "race"]; L (A "cobs" :: _ :: _ :: A r :: _)] ->
       (* thorough tier: the conc workload re-run in a child built with -race *)
       bump ("race_soak_" ^ r);
       let o = { co_clients = []; co_stray = false; co_hang = false; co_race = (r = "race") } in
